@@ -43,6 +43,12 @@ MARKUP = ('<!DOCTYPE html><html><head><title>t</title></head><body><!-- note -->
           '<b id="b1">delta</b></p><ul id="u1"><li id="l1">1</li><li id="l2">2</li><li id="l3">3</li></ul></body></html>')
 MARKUP2 = ('<![CDATA[x]]><html><head></head><body><?pi y?><p id="c1"><![CDATA[ ]]></p><p id="c2"><!DOCTYPE q></p><div id="c3"><p id="c4">alpha</p>'
            '<![CDATA[beta]]></div></body></html>')
+MARKUP3 = ('<html xmlns="http://www.w3.org/1999/xhtml" xmlns:html="urn:not-xhtml" xmlns:xlink="http://www.w3.org/1999/xlink" xml:lang="en">'
+           '<body><input type="checkbox" checked="checked" id="x1"/><select><option selected="selected" id="x2">o</option></select>'
+           '<a xlink:href="u" href="v" id="x3">l</a><a xlink:href="w" id="x5">m</a><html:b id="x4" xml:lang="de">t</html:b>'
+           '<input type="text" disabled="disabled" required="required" id="x6"/></body></html>')
+SELECTORS3 = [':checked', ':disabled', ':required', ':link', ':enabled', '[xlink|href]', '[xlink|href="w"]', '[*|href]', '[href]', ':lang(de)',
+              ':lang(en)', 'html|b', '[xml|lang]', ':read-write', 'a:not([xlink|href="u"])']
 SELECTORS = [':root', ':empty', 'p:-soup-contains("gamma")', 'p:-soup-contains-own("note")', 'div:-soup-contains("only")',
              'li:nth-child(2n+1)', 'p.x > b, #s1', ':lang(en) b', 'body :not(:empty):first-child']
 PARSERS = ['html.parser', 'lxml', 'html5lib']
@@ -62,7 +68,7 @@ def plan(tier, seed):
 
 def run_child(seq, timeout=120):
     spec = {'imports': [FORMS[i] for i in seq], 'markup': MARKUP, 'markup2': MARKUP2, 'selectors': SELECTORS + ['div:-soup-contains("beta")', '[data-v="3 4"]', '[data-v~=b], [data-v="7"]', '.k', '[data-v]:not([data-v*=a])'],
-            'parsers': PARSERS}
+            'parsers': PARSERS, 'markup3': MARKUP3, 'selectors3': SELECTORS3}
     d = tempfile.mkdtemp(prefix='c16.')
     try:
         sp, op = os.path.join(d, 'spec.json'), os.path.join(d, 'out.json')
